@@ -20,7 +20,7 @@ RULE = ("the finite space {words of the generator's reserved list and Python key
         "or imported, so every pair gets its own verdict), each pair probed through introspection and sync gRPC + REST calls whose wire "
         "records must show the original names; plus module-name collision configurations; evaluations = (word, position) pairs "
         "judged; distinct = pairs that held")
-ASSUMPTIONS = ["identity pandoc stand-in", "asyncio clients are covered by C03/C05/C06; here sync gRPC and REST are probed"]
+ASSUMPTIONS = ["identity pandoc stand-in", "asyncio clients are covered by C03/C05/C06; here sync gRPC and REST are probed, plus the asyncio client for keyword-named RPCs"]
 CASE_TIMEOUT = 1500
 PARALLEL = 12
 CONTROL = ["metadata", "retry", "timeout", "request"]
@@ -271,6 +271,11 @@ def judge(position, item, o, model, api):
             bad("wire-field", f"server decoded {str(gm)[:160]!r}")
         if path != f"/v1/anchors/a:rpc{item['i']}":
             bad("http-path", path)
+        # the asyncio client reaches the same RPC path under the same method name
+        if o.get("aio_error"):
+            bad("aio-call-failed", o["aio_error"])
+        elif (o.get("aio_event") or {}).get("method") != want_path:
+            bad("rpc-path", f"asyncio: {(o.get('aio_event') or {}).get('method')} != {want_path}")
     elif position == "file":
         if o.get("module") != w + "_":
             bad("module-name", f"types module {o.get('module')!r}, expected {w + '_'!r}")
@@ -489,6 +494,20 @@ def in_runner(script):
                 evs = server.since(mark)
                 if evs:
                     o[tr + "_event"] = evs[0]
+            if pos == "rpc":
+                import asyncio
+
+                async def _aio_call():
+                    ac = lib.aio_client("Words", srv.target)
+                    return await getattr(ac, name)(**dict(kwargs))
+                mark = srv.mark()
+                try:
+                    asyncio.run(_aio_call())
+                except BaseException as e:  # noqa
+                    o["aio_error"] = rt.exc_info(e)
+                evs = srv.since(mark)
+                if evs:
+                    o["aio_event"] = evs[0]
             if pos == "query_required":
                 mark = http.mark()
                 try:
